@@ -175,6 +175,243 @@ def repr_tokens(text):
     return ' '.join(out)
 
 
+def struct_float(rg):
+    import struct as _s
+    while True:
+        x = _s.unpack('>d', _s.pack('>Q', rg.getrandbits(64)))[0]
+        if math.isfinite(x):
+            return x
+
+
+FOREIGN = [None, 0, 1, 1.5, 'x', (1, 2), [3], {'a': 1}, object(), True, b'x', float('nan')]
+
+
+def eq_laws(oa, ob, oc, oa2):
+    """oc is ob with numbers respelled (2 <-> 2.0); oa2 is oa rebuilt"""
+    try:
+        ab, ba = (oa == ob), (ob == oa)
+        if not isinstance(ab, bool) or ab != ba:
+            return 'bad: == not symmetric / not bool'
+        if (oa != ob) != (not ab):
+            return 'bad: != inconsistent with =='
+        if not (oa == oa) or not (oa == oa2) or not (oa2 == oa):
+            return 'bad: not reflexive on a rebuilt copy'
+        if hash(oa) != hash(oa2):
+            return 'bad: equal objects hash differently (rebuilt copy)'
+        if not (ob == oc) or not (oc == ob):
+            return 'bad: int/float respelling compares unequal'
+        if hash(ob) != hash(oc):
+            return 'bad: int/float respelling hashes differently'
+        if ab:
+            if hash(oa) != hash(ob):
+                return 'bad: equal expressions with different hashes'
+            if ob not in {oa} or {oa: 1}.get(ob) != 1:
+                return 'bad: equal expressions are different set members / dict keys'
+            if not (oa == oc):
+                return 'bad: == not transitive'
+        for z in FOREIGN:
+            if (oa == z) is not False or (z == oa) is not False or (oa != z) is not True:
+                return 'bad: comparison with foreign object %r' % (z,)
+        # derivative objects
+        p1, p2 = Partial(oa, 'v2'), Partial(ob, 'v2')
+        if (p1 == p2) != ab or (p2 == p1) != ab:
+            return 'bad: Partial equality does not follow expression equality'
+        if ab and hash(p1) != hash(p2):
+            return 'bad: equal Partials hash differently'
+        if p1 == Partial(oa, 'v3') or not (p1 == Partial(oa, X.Variable('v2'))) or not (p1 == Partial(oa, 'v2', compute_early=True)):
+            return 'bad: Partial equality w.r.t. variable / spelling / early flag'
+        if hash(p1) != hash(Partial(oa, X.Variable('v2'))):
+            return 'bad: Partial hash depends on the spelling of the variable'
+        d1, d2 = Differential(oa), Differential(ob)
+        if (d1 == d2) != ab or (ab and hash(d1) != hash(d2)) or not (d1 == Differential(oa, compute_early=True)):
+            return 'bad: Differential equality / hash'
+        if d1 == p1 or p1 == d1 or p1 == oa or oa == p1 or d1 == oa:
+            return 'bad: objects of different classes compare equal'
+        for z in FOREIGN:
+            if (p1 == z) is not False or (d1 == z) is not False:
+                return 'bad: derivative object compared with foreign object %r' % (z,)
+        if len(oa._variable_names) <= 1 and len(ob._variable_names) <= 1:
+            v1, v2 = Derivative(oa), Derivative(ob)
+            if (v1 == v2) != ab or (ab and hash(v1) != hash(v2)) or v1 == p1 or v1 == d1:
+                return 'bad: Derivative equality / hash'
+        pt = Point(v2=1.5, v3=2, v4=0.5)
+        try:
+            l1 = LocatedDifferential(oa, pt)
+            l2 = LocatedDifferential(ob, Point(v4=0.5, v3=2.0, v2=1.5))
+        except (DomainError, CoordinateMissing, OverflowError):
+            l1 = l2 = None
+        if l1 is not None:
+            if (l1 == l2) != ab or (ab and hash(l1) != hash(l2)):
+                return 'bad: LocatedDifferential equality / hash'
+            try:
+                l3 = LocatedDifferential(oa, Point(v2=1.5, v3=2, v4=0.75))
+                if l1 == l3:
+                    return 'bad: LocatedDifferentials at different points compare equal'
+            except (DomainError, CoordinateMissing, OverflowError):
+                pass
+            if (l1 == None) is not False:  # noqa: E711
+                return 'bad: LocatedDifferential == None'
+    except Exception as ex:  # noqa: BLE001
+        return 'bad: comparison raised %s' % type(ex).__name__
+    return 'ok'
+
+
+def point_laws(p, q):
+    try:
+        a, c = mkpoint(p), mkpoint(q)
+        ab, ba = (a == c), (c == a)
+        if ab != ba or (a != c) != (not ab):
+            return 'bad: point == not symmetric / != inconsistent'
+        if ab and hash(a) != hash(c):
+            return 'bad: equal points hash differently'
+        if ab and (c not in {a}):
+            return 'bad: equal points are different set members'
+        r = mkpoint(list(reversed(p)))
+        if not (a == r) or hash(a) != hash(r):
+            return 'bad: coordinate order matters for point equality / hash'
+        want = (dict((k, v) for k, v in p) == dict((k, v) for k, v in q))
+        if ab != want:
+            return 'bad: point equality is %s, coordinates say %s' % (ab, want)
+        for z in FOREIGN:
+            if (a == z) is not False or (z == a) is not False:
+                return 'bad: point compared with foreign object %r' % (z,)
+    except Exception as ex:  # noqa: BLE001
+        return 'bad: raised %s' % type(ex).__name__
+    return 'ok'
+
+
+GOOD_BAD_NAMES = ['x', 'X1', '_', '_a', '9', '9lives', 'x_y_z', '\u00e9t\u00e9', '\u03a9mega', '\u53d8\u91cf', 'x\u0663', '\uff58',
+                  'a' * 200, 'whatever', 'self', 'point', 'class', 'None', 'lambda', 'n', 'base', 'args', 'kwargs',
+                  'x\u0301', '\u01c5', '\u00aa', '\u00b2', 'variable', 'inner', 'cls',
+                  '', ' ', 'a b', 'a-b', 'x\n', '\nx', 'x.y', 'x+', '\u00e9-', '"', "a'b", 'x\t', 'x\x00', '-', '(x)', 'x,y', 'x=1',
+                  'x\r', ' x', 'x ', '\u00a0', 'a\u200bb', 'x\u2028']
+
+
+def names_check():
+    import re as _re
+    for nm in GOOD_BAD_NAMES:
+        legal = bool(nm) and _re.fullmatch(r'\w+', nm) is not None
+        try:
+            v = X.Variable(nm)
+            acc = True
+        except Exception:  # noqa: BLE001
+            acc = False
+        if acc != legal:
+            return 'bad: Variable(%r) %s but the name is %s' % (nm, 'accepted' if acc else 'rejected', 'legal' if legal else 'illegal')
+        if not acc:
+            continue
+        try:
+            if v.name != nm:
+                return 'bad: name reported as %r for %r' % (v.name, nm)
+            pt = Point(**{nm: 2.5})
+            if pt.coordinate(nm) != 2.5 or pt.coordinate(v) != 2.5:
+                return 'bad: coordinate %r not retrievable' % nm
+            if v.at(pt) != 2.5 or v.at(2.5) != 2.5:
+                return 'bad: Variable(%r).at' % nm
+            z = X.Multiply(v, X.Add(v, X.Constant(1)))
+            if z.at(pt) != 8.75 or Partial(z, nm).at(pt) != 6.0 or Partial(z, v, compute_early=True).at(pt) != 6.0:
+                return 'bad: evaluation/differentiation with the name %r' % nm
+            if LocatedDifferential(z, pt).component(nm) != 6.0 or Differential(z, compute_early=True).component_at(v, pt) != 6.0:
+                return 'bad: differential with the name %r' % nm
+            if Derivative(z).at(2.5) != 6.0:
+                return 'bad: Derivative with the name %r' % nm
+        except Exception as ex:  # noqa: BLE001
+            return 'bad: accepted name %r cannot be used: %s' % (nm, type(ex).__name__)
+    for bad in (None, 3, 1.5, ['x'], ('x',), b'x', X.Variable('x')):
+        try:
+            X.Variable(bad)
+            return 'bad: Variable(%r) accepted' % (bad,)
+        except Exception:  # noqa: BLE001
+            pass
+    return 'ok'
+
+
+def ops_check(a, c):
+    try:
+        pairs = [(-a, X.Negation(a)), (a + c, X.Add(a, c)), (a - c, X.Minus(a, c)), (a * c, X.Multiply(a, c)),
+                 (a / c, X.Divide(a, c)), (a ** c, X.Power(a, c)), (a ** 3, X.NthPower(a, 3)), (a ** 2.0, X.NthPower(a, 2)),
+                 (a ** 1, X.NthPower(a, 1))]
+        for got, want in pairs:
+            if not (got == want) or repr(got) != repr(want) or got.__class__ is not want.__class__:
+                return 'bad: %r is not %r' % (got, want)
+        if (a + c)._inners[0] is not a or (a + c)._inners[1] is not c or (a - c)._left is not a or (a ** c)._right is not c:
+            return 'bad: operands were copied or rewritten'
+        if (a ** 3).n != 3 or type((a ** 2.0).n) is not int:
+            return 'bad: exponent stored as %r' % ((a ** 2.0).n,)
+        for z in (None, 1, 2.5, 'x', (1,), [a]):
+            for f in (lambda u, w: u + w, lambda u, w: u - w, lambda u, w: u * w, lambda u, w: u / w):
+                for u, w in ((a, z), (z, a)):
+                    try:
+                        r_ = f(u, w)
+                        return 'bad: operator accepted the foreign operand %r -> %r' % (z, r_)
+                    except Exception:  # noqa: BLE001
+                        pass
+            try:
+                r_ = z ** a
+                return 'bad: %r ** expression accepted' % (z,)
+            except Exception:  # noqa: BLE001
+                pass
+    except Exception as ex:  # noqa: BLE001
+        return 'bad: raised %s: %s' % (type(ex).__name__, ex)
+    return 'ok'
+
+
+def ctor_ops_check():
+    x = X.Variable('v2')
+    bads = [None, 3, 1.5, 'x', (1,), [x], True]
+    try:
+        for cls in (X.Negation, X.Reciprocal, X.Sine, X.Cosine):
+            for z in bads:
+                try:
+                    cls(z)
+                    return 'bad: %s(%r) accepted' % (cls.__name__, z)
+                except Exception:  # noqa: BLE001
+                    pass
+        for cls in (X.Minus, X.Divide, X.Power):
+            for z in bads:
+                for args in ((x, z), (z, x), (z, z)):
+                    try:
+                        cls(*args)
+                        return 'bad: %s%r accepted' % (cls.__name__, args)
+                    except Exception:  # noqa: BLE001
+                        pass
+        for cls in (X.Add, X.Multiply):
+            for z in bads:
+                for args in ((z,), (x, z), (z, x), (x, x, z), (x, z, x)):
+                    try:
+                        cls(*args)
+                        return 'bad: %s%r accepted' % (cls.__name__, args)
+                    except Exception:  # noqa: BLE001
+                        pass
+        for cls in (X.NthPower, X.NthRoot):
+            for z in bads:
+                try:
+                    cls(z, 2)
+                    return 'bad: %s(%r, 2) accepted' % (cls.__name__, z)
+                except Exception:  # noqa: BLE001
+                    pass
+        for cls in (X.Exponential, X.Logarithm):
+            for z in bads:
+                try:
+                    cls(z)
+                    return 'bad: %s(%r) accepted' % (cls.__name__, z)
+                except Exception:  # noqa: BLE001
+                    pass
+        if X.Constant(5).value != 5 or X.Constant(2.5).value != 2.5 or x.name != 'v2':
+            return 'bad: value/name not reported back'
+        if X.NthPower(x, 3.0).n != 3 or type(X.NthPower(x, 3.0).n) is not int or X.NthRoot(x, 4).n != 4:
+            return 'bad: n not reported back as the integer'
+        if X.Exponential(x, base=2.5).base != 2.5 or X.Logarithm(x, base=10).base != 10:
+            return 'bad: base not reported back'
+        if X.Exponential(x).base != math.e or X.Logarithm(x).base != math.e:
+            return 'bad: default base is not e'
+        if len(X.Add()._inners) != 0 or X.Add().at(Point()) != 0 or X.Multiply().at(Point()) != 1:
+            return 'bad: empty sum / product'
+    except Exception as ex:  # noqa: BLE001
+        return 'bad: raised %s: %s' % (type(ex).__name__, ex)
+    return 'ok'
+
+
 class WarnCatcher(logging.Handler):
     def __init__(self):
         super().__init__()
@@ -466,6 +703,93 @@ def run_line(line):
         except Exception:  # noqa: BLE001
             return 'RAISES'
         return 'OK ' + show_obj(r)
+    if cmd in ('STEPCOUNT', 'STEPINFO'):
+        e, _ = sx.parse_expr(ts, 1)
+        obj = build(e)
+        cur = obj
+        last = from_obj(obj)
+        last_s = sx.to_sx(last)
+        seen = {last_s}
+        forms = 1
+        pysteps = 0
+        revisit = False
+        mudec = True
+        last_mu = sx.mu(last)
+        while not cur._is_fully_reduced and pysteps < 300000:
+            cur = cur._take_reduction_step()
+            pysteps += 1
+            t = from_obj(cur)
+            s_ = sx.to_sx(t)
+            if s_ != last_s:
+                forms += 1
+                if s_ in seen:
+                    revisit = True
+                seen.add(s_)
+                m_ = sx.mu(t)
+                if not m_ < last_mu:
+                    mudec = False
+                last, last_s, last_mu = t, s_, m_
+        if cmd == 'STEPCOUNT':
+            return 'forms=%d final=%s' % (forms, last_s)
+        CATCH.hit = False
+        build(e)._normalize()
+        return 'pysteps=%d forms=%d revisit=%s mudec=%s warn=%s size=%d' % (
+            pysteps, forms, revisit, mudec, CATCH.hit, sx.size(e))
+    if cmd == 'EQX':
+        a, k = sx.parse_expr(ts, 1)
+        c, k = sx.parse_expr(ts, k)
+        g, _ = sx.parse_expr(ts, k)
+        return eq_laws(build(a), build(c), build(g), build(a))
+    if cmd == 'PEQX':
+        p, k = sx.parse_point(ts, 1)
+        q, _ = sx.parse_point(ts, k)
+        return point_laws(p, q)
+    if cmd == 'REPRINJ':
+        a, k = sx.parse_expr(ts, 1)
+        c, _ = sx.parse_expr(ts, k)
+        oa, oc = build(a), build(c)
+        if oa == oc:
+            return 'same'
+        if repr(oa) == repr(oc) or str(oa) == str(oc):
+            return 'bad: %s prints like %s' % (sx.to_sx(a), sx.to_sx(c))
+        pa, pc = Partial(oa, 'v2'), Partial(oc, 'v2')
+        if repr(pa) == repr(pc) or repr(Differential(oa)) == repr(Differential(oc)):
+            return 'bad: derivative objects of unequal expressions print identically'
+        return 'ok'
+    if cmd == 'NUMREPR':
+        import random as _r
+        rg = _r.Random(int(ts[1]))
+        for _ in range(int(ts[2])):
+            k_ = rg.random()
+            if k_ < 0.3:
+                x = rg.uniform(-1e6, 1e6)
+            elif k_ < 0.5:
+                x = rg.random() * 10.0 ** rg.randint(-300, 300)
+            elif k_ < 0.7:
+                x = struct_float(rg)
+            elif k_ < 0.85:
+                x = rg.randint(-10 ** 20, 10 ** 20)
+            else:
+                x = float(rg.randint(-10 ** 6, 10 ** 6))
+            if isinstance(x, float) and not math.isfinite(x):
+                continue
+            c = X.Constant(x)
+            back = eval(repr(c), dict(PUBLIC))
+            if not (back == c and back.value == x and type(back.value) is type(x)):
+                return 'bad: Constant(%r) reads back as %r' % (x, back)
+            e_ = X.Exponential(X.Variable('v2'), base=abs(x) + 0.5) if isinstance(x, float) else None
+            if e_ is not None and math.isfinite(abs(x) + 0.5):
+                if not eval(repr(e_), dict(PUBLIC)) == e_:
+                    return 'bad: %r does not read back' % (e_,)
+        return 'ok'
+    if cmd == 'NAMES':
+        return names_check()
+    if cmd == 'OPS':
+        a, k = sx.parse_expr(ts, 1)
+        c, _ = sx.parse_expr(ts, k)
+        return ops_check(build(a), build(c))
+    if cmd == 'CTOROPS':
+        return ctor_ops_check()
     if cmd == 'VARS':
         e, _ = sx.parse_expr(ts, 1)
         return ' '.join(str(i) for i in sorted(sx.id_of(n) for n in build(e)._variable_names))
@@ -481,6 +805,13 @@ def run_line(line):
 
 def main():
     sys.setrecursionlimit(20000)
+    pre = os.environ.get('VERIF_PRECREATE')
+    if pre:
+        import random as _r
+        ids = list(range(2, 10))
+        _r.Random(int(pre)).shuffle(ids)
+        keep = [X.Variable(sx.name_of(i)) for i in ids]   # variables first created in a permuted order
+        _ = keep
     out = sys.stdout
     for line in sys.stdin:
         line = line.rstrip('\n')
